@@ -20,7 +20,7 @@ MANIFEST = {
     "engine": "qv-native",
     "category": "proof",
     "technique": "finite-domain decision of generate_hilbert_space / subspace_vector / _convert_basis_element_to_index against the big-endian expansion (exhaustive in the thorough tier), z3 bit-vector lemmas for a symbolic index per size, contracts on load_data / load_data_DM with np.loadtxt stubbed, exhaustive small-scope decision of extract_refbasis_samples",
-    "text": "For every size 1..20 row k of the generated Hilbert space, subspace_vector(k) and the index recomputed by _convert_basis_element_to_index denote the n-bit big-endian expansion of k (site 0 = most significant bit); sizes above max_size are refused. Per size the statements 'column c of row k is bit size-1-c of k' and 'sum_c bit * 2^(size-1-c) == k' are z3 bit-vector lemmas over a symbolic k. 'Site 0 is the leftmost tensor factor' and 'position k of every psi / rho array' are obligations of C04 / C01 / C02, stated against the same index function. The loaders are executed with np.loadtxt replaced by a stub: list order and presence pattern, samples == double(float32(file)), target columns 0/1 as real/imaginary parts, real and imaginary matrices stacked, ValueError iff exactly one matrix path, bases passed through as strings. extract_refbasis_samples returns exactly the rows whose basis row is all 'Z', in order (all patterns for N <= 4 rows x n <= 3 sites over {X,Y,Z}, plus seeded larger cases).",
+    "text": "For every size 1..20 row k of the generated Hilbert space, subspace_vector(k) and the index recomputed by _convert_basis_element_to_index denote the n-bit big-endian expansion of k (site 0 = most significant bit); sizes above max_size are refused. Per size the statements 'column c of row k is bit size-1-c of k' and 'sum_c bit * 2^(size-1-c) == k' are z3 bit-vector lemmas over a symbolic k. 'Site 0 is the leftmost tensor factor' and 'position k of every psi / rho array' are obligations of C04 / C01 / C02, stated against the same index function. The loaders are executed with np.loadtxt replaced by a stub: list order and presence pattern, samples == double(float32(file)), target columns 0/1 as real/imaginary parts, real and imaginary matrices stacked, ValueError iff exactly one matrix path, bases passed through as strings. extract_refbasis_samples returns exactly the rows whose basis row is all 'Z', in order (all patterns for N <= 4 rows x n <= 3 sites over {X,Y,Z} and three alphabets with labels that sort before and after 'Z', plus seeded larger cases).",
     "note": "np.loadtxt's parsing is a library contract (the bounded driver writes random files and compares); quick tier samples rows above 2^12 for sizes > 12",
 }
 EXPLANATION = "finite domain: sizes 1..20; all rows (thorough) / all rows up to 2^12 plus 4096 seeded rows per larger size (quick)"
@@ -257,13 +257,14 @@ def _refbasis(ctx, cfg):
     total = 0
     ok = True
     bad = None
-    for n in (1, 2, 3):
-        letters = list(itertools.product("XYZ", repeat=n))
-        for N in (1, 2, 3, 4):
+    # alphabets: the Pauli labels, and labels that sort before / after "Z" (a lower-case "z" is another label, not the reference one)
+    for n, alphabet in [(n, a) for a in ("XYZ", "AZa", "Zz_", "HZ") for n in (1, 2, 3)]:
+        letters = list(itertools.product(alphabet, repeat=n))
+        for N in (0, 1, 2, 3, 4):
             combos = itertools.product(letters, repeat=N) if len(letters) ** N <= 3000 else \
                 [tuple(letters[i] for i in np.random.default_rng(s).integers(0, len(letters), size=N)) for s in range(1500)]
             for rows in combos:
-                bases = np.array([list(r) for r in rows])
+                bases = np.array([list(r) for r in rows]).reshape(N, n).astype("<U1")
                 samples = torch.arange(N * n, dtype=torch.double).reshape(N, n)
                 keep = samples.clone()
                 z = extract_refbasis_samples(samples, bases)
@@ -278,7 +279,7 @@ def _refbasis(ctx, cfg):
             break
     ctx.holds("extract_refbasis_samples/exactly the all-Z rows, in order, data untouched (%d basis patterns, exhaustive for small N,n)" % total, ok, str(bad))
     ctx.bounded.append({"label": "exhaustive-small-scope", "what": "extract_refbasis_samples", "evaluations": total,
-                        "bound": "all basis patterns over {X,Y,Z} for N <= 4 rows, n <= 3 sites (seeded subset where the count exceeds 3000)"})
+                        "bound": "all basis patterns over {X,Y,Z}, {A,Z,a}, {Z,z,_} and {H,Z} for N <= 4 rows (incl. none), n <= 3 sites (seeded subset where the count exceeds 3000)"})
 
 
 def replay(o):
